@@ -138,12 +138,14 @@ class C13(SeqProp):
                 x = seq.declare_variable("x", dtype=float)
                 eom = {"a": False, "b": False, "c": False}
                 param = False
+                measured = None  # None / "concrete" (measured before any variable was used) / "parametrized"
                 hist = []
                 n = rng.randint(4, 12)
                 when = rng.randrange(n)
                 for i in range(n):
                     ch = rng.choice(["a", "a", "b", "b", "c"])
-                    kind = rng.choice(["enable", "disable", "add", "add_eom", "target", "delay", "estimate", "duration", "phase_ref"])
+                    kind = rng.choice(["enable", "disable", "add", "add_eom", "target", "delay", "estimate", "duration", "phase_ref"]
+                                      + (["measure"] if k % 2 else []))
                     use_var = (i == when) or (param and rng.random() < 0.3)
                     amp = (1.0 + 0 * x) if use_var else 1.0
                     dur = 100
@@ -195,6 +197,13 @@ class C13(SeqProp):
                         use_var = False
                         if param:
                             refuse = "inspection-while-parametrized"
+                    if kind == "measure":
+                        call = lambda: seq.measure("ground-rydberg")  # noqa: E731
+                        use_var = False
+                        refuse = "already-measured" if measured else None
+                    elif measured and kind in ("enable", "disable", "add", "add_eom", "target", "delay"):
+                        # after the measurement nothing may be added, whatever else would apply
+                        refuse = "after-measurement" + (":measured-before-first-variable" if measured == "concrete" and (param or use_var) else "")
                     if call is None:
                         continue
                     hist.append((kind, ch, bool(use_var)))
@@ -211,6 +220,8 @@ class C13(SeqProp):
                     if not refuse and not ok:
                         v.append(Violation("refused-in-right-mode:" + kind + (":parametrized" if param else ""),
                                            f"{kind} on {ch} refused with {err!r} (mode: eom={eom}, parametrized={param})"[:300], case))
+                    if ok and kind == "measure":
+                        measured = "parametrized" if param else "concrete"
                     if ok:
                         if kind == "enable":
                             eom[ch] = True
